@@ -82,6 +82,9 @@ async fn checkpoint_update_git<'a>(
         None => git::git_cmd_rev_parse(input.git_opts.git_path, work_path, "HEAD").await?,
     };
 
+    // the pending map describes this update only; entries carried over from an earlier
+    // checkpoint would keep filtering paths that have since been committed or reverted
+    checkpoint.pending = None;
     if input.pending {
         // get all changes with default checkpoint, i.e. [HEAD, staging area]
         let pending_changes =
